@@ -44,7 +44,7 @@ def gen_dir(rng, irregular=False):
             if cand:
                 i = cand[0] if rng.random() < 0.7 else rng.choice(cand)
                 head, tail = lines[i].rsplit(" ", 1)
-                if len(tail) >= 2 and "::" not in tail and "[" not in tail:
+                if re.fullmatch(r"[A-Za-z][A-Za-z0-9_]+", tail):      # an ordinary word: the page stays well-formed
                     lines[i] = head + " " + tail[:1] + rng.choice(["\xe2\x80\xa8", "\x0c", "\x1c", "\xe2\x80\xa9"]) + tail[1:]
         text = "\n".join(lines)
         if irregular:
@@ -87,7 +87,14 @@ def check_dir(eng, rng, files, oc, irregular):
         write_tree(d, files)
         exp_files, exp_store, before = expected_after_create(eng, d, files)
         with freeze_time(dt.datetime(2024, 6, 1, 12)):
-            Z.db_create(d)
+            try:
+                Z.db_create(d)
+            except Exception as e:  # noqa: BLE001
+                # the pages are well-formed (the real compiler accepted every one of them just above): db create must index them
+                oc.evaluations += 1
+                oc.spec_fail.append(({"files": files}, "db create raised %s: %s" % (type(e).__name__, str(e)[:300]),
+                                     "db create succeeds on a directory of well-formed pages", None))
+                return False
         after = W.user_files(d)
         st = W.stores(d)
         oc.evaluations += 1
@@ -212,6 +219,10 @@ def run(oc, tier, seed):
                "(allocation order + line rewriting), and on the implementation alone: every note has a ZID, recompiled notes "
                "= indexed notes on all fields incl. section path and block, files differ only by 'prefix + ZID + rest' on "
                "first lines of ZID-less notes, repeated runs change nothing; non-trivial = directory with >= 3 new notes")
+    # in every run: characters that str.splitlines() takes for line ends, ABOVE notes that still need their ZIDs
+    check_dir(eng, rng, {"sep.zo": "# sep\n\n- pasted\xe2\x80\xa8 text above\n- form\x0cfeed and file\x1cseparator\n"
+                                   "- a second note without zid\no P1 third\n  * bullet of third\n- fourth\n\n",
+                         "sub/plain.zo": "# plain\n\n- only note\n\n"}, oc, False)
     search = 10
     for i in range(n + 10):
         if i >= n and not oc.corr_mismatch:
